@@ -3546,3 +3546,594 @@ func runOKUSE(c *Ctx, r *Result, rule string, fns []*ssa.Function) int {
 	}
 	return n
 }
+
+// ---------------------------------------------------------------------------------------
+// ERRDROP (C08, C09): an error produced in a loop is looked at before the next round replaces it.
+//
+// For every error-typed result of a call inside a loop: if the value flows nowhere but into the
+// phi of the loop head (the variable `err` as the next round sees it), and that phi is not used
+// anywhere inside the loop, the error is observed only when the round that produced it happens
+// to be the last — all earlier failures are overwritten (`for … { x[i], err = f(x[i]) }; return
+// err`). What such a loop stores meanwhile is the failed call's other result (a nil node).
+// ---------------------------------------------------------------------------------------
+
+func runERRDROP(c *Ctx, r *Result, rule string, fns []*ssa.Function) int {
+	n := 0
+	for _, f := range fns {
+		if len(f.Blocks) == 0 {
+			continue
+		}
+		loops := findLoops(f)
+		if len(loops) == 0 {
+			continue
+		}
+		ord := 0
+		for _, ins := range instrsIn(f) {
+			v, ok := ins.(ssa.Value)
+			if !ok || !isErrorType(v.Type()) {
+				continue
+			}
+			switch x := v.(type) {
+			case *ssa.Extract:
+				if _, isCall := x.Tuple.(*ssa.Call); !isCall {
+					continue
+				}
+			case *ssa.Call:
+			default:
+				continue
+			}
+			// innermost loop containing the definition
+			var in *loopInfo
+			for _, l := range loops {
+				if l.body[ins.Block()] && (in == nil || len(l.body) < len(in.body)) {
+					in = l
+				}
+			}
+			if in == nil {
+				continue
+			}
+			ord++
+			n++
+			o := Obligation{Rule: rule, Key: fmt.Sprintf("%s:loop-error#%d", shortFn(f), ord), Fn: shortFn(f), Pos: c.W.Pos(ins.Pos()), Nontrivial: true}
+			refs := v.Referrers()
+			onlyHead, any := true, false
+			var head *ssa.Phi
+			if refs != nil {
+				for _, rf := range *refs {
+					if _, dbg := rf.(*ssa.DebugRef); dbg {
+						continue
+					}
+					any = true
+					phi, isPhi := rf.(*ssa.Phi)
+					if !isPhi || phi.Block() != in.header {
+						onlyHead = false
+						break
+					}
+					head = phi
+				}
+			}
+			dropped := false
+			if any && onlyHead && head != nil {
+				dropped = true
+				if hr := head.Referrers(); hr != nil {
+					for _, rf := range *hr {
+						if _, dbg := rf.(*ssa.DebugRef); dbg {
+							continue
+						}
+						if in.body[rf.Block()] {
+							if p2, isPhi := rf.(*ssa.Phi); isPhi && p2.Block() == in.header {
+								continue
+							}
+							dropped = false
+						}
+					}
+				}
+			}
+			if dropped {
+				o.Verdict, o.Reason = Finding, "the error of one round of the loop is only carried to the next round, where nothing looks at it before it is overwritten: a failure in any round but the last is lost (and the value the failed call returned with it, a nil node, stays in place)"
+			} else {
+				o.Verdict, o.Reason = Discharged, "the error produced in the loop is tested, returned or handed on within the same round"
+			}
+			r.Add(o)
+		}
+	}
+	return n
+}
+
+// ---------------------------------------------------------------------------------------
+// BLOCKKEEP (C04, with PARENS): optimisation never removes parentheses.
+//
+// The tree builder decides by node type whether what follows binds into an expression (a
+// predicate after a group, a second group, a path step after a literal): a parenthesised
+// expression is shielded from that by being a BlockNode. Rule: every successful return of
+// (*BlockNode).optimize returns a *BlockNode — the receiver, or a value type-asserted to
+// *BlockNode (collapsing doubled parentheses keeps a block).
+// ---------------------------------------------------------------------------------------
+
+func runBLOCKKEEP(c *Ctx, r *Result, rule string) int {
+	f := c.mustFn(r, "jparse.(*BlockNode).optimize")
+	if f == nil || len(f.Params) == 0 {
+		return 0
+	}
+	recv := f.Params[0]
+	isBlock := func(v ssa.Value) bool {
+		mi, ok := v.(*ssa.MakeInterface)
+		if !ok {
+			return false
+		}
+		x := mi.X
+		if x == ssa.Value(recv) {
+			return true
+		}
+		if !types.Identical(x.Type(), recv.Type()) {
+			return false
+		}
+		// any value of the static type *BlockNode is a block
+		return true
+	}
+	n := 0
+	for _, b := range f.Blocks {
+		ret, ok := b.Instrs[len(b.Instrs)-1].(*ssa.Return)
+		if !ok || len(ret.Results) == 0 || !isSuccessReturn(ret) {
+			continue
+		}
+		if isNilConst(ret.Results[0]) {
+			continue
+		}
+		n++
+		o := Obligation{Rule: rule, Key: fmt.Sprintf("(*BlockNode).optimize:return#%d", n), Fn: shortFn(f), Pos: c.W.Pos(ret.Pos()), Nontrivial: true}
+		ok2 := isBlock(ret.Results[0])
+		if phi, isPhi := ret.Results[0].(*ssa.Phi); isPhi {
+			ok2 = true
+			for _, e := range phi.Edges {
+				if !isBlock(e) && !isNilConst(e) {
+					ok2 = false
+				}
+			}
+		}
+		if ok2 {
+			o.Verdict, o.Reason = Discharged, "the optimised block is a *BlockNode"
+		} else {
+			o.Verdict, o.Reason = Finding, "(*BlockNode).optimize can return " + describeVal(ret.Results[0]) + ", which is not a block: the parentheses are gone and what follows the expression is judged as if they had not been written (a predicate or a second group after a parenthesised group becomes a compile error)"
+		}
+		r.Add(o)
+	}
+	return n
+}
+
+// ---------------------------------------------------------------------------------------
+// SORTVALID (C13): order-by yields a value only after its keys have been checked.
+//
+// The function that can raise the key errors of order-by (it constructs ErrNonSortable) is the
+// validator. In every function that calls it, each return that hands back a value (not the
+// undefined value) without an error must lie behind the validator's err == nil edge: a shortcut
+// for short sequences that returns before the keys are evaluated turns "keys of another type are
+// errors" into a value for those sequences.
+// ---------------------------------------------------------------------------------------
+
+func runSORTVALID(c *Ctx, r *Result, rule string) int {
+	lib := c.W.Lib["jsonata"]
+	if lib == nil {
+		return 0
+	}
+	var want int64 = -1
+	if k, ok := lib.Types.Scope().Lookup("ErrNonSortable").(*types.Const); ok {
+		want, _ = constant.Int64Val(k.Val())
+	}
+	if want < 0 {
+		r.LoseAnchor("SORTVALID: constant ErrNonSortable not found")
+		return 0
+	}
+	validators := map[*ssa.Function]bool{}
+	for _, f := range c.W.FuncsOf(PkgSet{lib.Types: true}) {
+		for _, ci := range callsIn(f) {
+			g := ci.Common().StaticCallee()
+			if g == nil || shortFn(g) != "jsonata.newEvalError" || len(ci.Common().Args) == 0 {
+				continue
+			}
+			if k, ok := constInt(ci.Common().Args[0]); ok && k == want {
+				validators[exceptionRoot(f)] = true
+			}
+		}
+	}
+	if len(validators) == 0 {
+		r.LoseAnchor("SORTVALID: no function constructs ErrNonSortable")
+		return 0
+	}
+	n := 0
+	for _, f := range c.W.FuncsOf(PkgSet{lib.Types: true}) {
+		if validators[f] || !c.REval.Set[f] {
+			continue
+		}
+		var vcalls []*ssa.Call
+		for _, ci := range callsIn(f) {
+			if g := ci.Common().StaticCallee(); g != nil && validators[g] {
+				if cl, ok := ci.(*ssa.Call); ok {
+					vcalls = append(vcalls, cl)
+				}
+			}
+		}
+		if len(vcalls) == 0 {
+			continue
+		}
+		ord := 0
+		for _, b := range f.Blocks {
+			ret, ok := b.Instrs[len(b.Instrs)-1].(*ssa.Return)
+			if !ok || len(ret.Results) != 2 || !isSuccessReturn(ret) || isUndefinedLoad(ret.Results[0]) {
+				continue
+			}
+			ord++
+			n++
+			o := Obligation{Rule: rule, Key: fmt.Sprintf("%s:value-return#%d", shortFn(f), ord), Fn: shortFn(f), Pos: c.W.Pos(ret.Pos()), Nontrivial: true}
+			behind := false
+			for _, vc := range vcalls {
+				if errNilDominates(vc, b) {
+					behind = true
+				}
+			}
+			if behind {
+				o.Verdict, o.Reason = Discharged, "the value is returned behind the err == nil edge of " + shortFn(vcalls[0].Call.StaticCallee())
+			} else {
+				o.Verdict, o.Reason = Finding, "a value is returned without the sort keys having been evaluated and checked by " + shortFn(vcalls[0].Call.StaticCallee()) + ": for the inputs that take this path a key of a non-sortable type is not an error"
+			}
+			r.Add(o)
+		}
+	}
+	return n
+}
+
+// ---------------------------------------------------------------------------------------
+// FILTERALL (C02): a predicate is evaluated for every item of the list.
+//
+// In applyFilter, the loop that reads the items by index is left only through its bound test or
+// through a return that carries an error. A successful return from inside the loop stops the
+// scan: later items are neither kept nor judged (and their errors never raised) — the shortcut
+// "a number selects at most one item" is wrong when the number depends on the item.
+// ---------------------------------------------------------------------------------------
+
+func runFILTERALL(c *Ctx, r *Result, rule string) int {
+	f := c.mustFn(r, "jsonata.applyFilter")
+	if f == nil {
+		return 0
+	}
+	var items *ssa.Parameter
+	for _, p := range f.Params {
+		if isReflectValue(p.Type()) {
+			items = p
+		}
+	}
+	n := 0
+	for _, l := range findLoops(f) {
+		reads := false
+		for b := range l.body {
+			for _, ins := range b.Instrs {
+				if call, ok := ins.(*ssa.Call); ok && staticName(call) == "reflect.Value.Index" && items != nil && len(call.Call.Args) == 2 && call.Call.Args[0] == ssa.Value(items) {
+					reads = true
+				}
+			}
+		}
+		if !reads {
+			continue
+		}
+		n++
+		o := Obligation{Rule: rule, Key: fmt.Sprintf("applyFilter:item-loop#%d", n), Fn: shortFn(f), Pos: c.W.Pos(firstPos(l)), Nontrivial: true}
+		bad := ""
+		// exits other than the loop's own bound test (taken in the header): a return block or a
+		// break target reached from inside the body
+		for _, b := range f.Blocks {
+			if !l.body[b] || b == l.header {
+				continue
+			}
+			for _, sb := range b.Succs {
+				if l.body[sb] {
+					continue
+				}
+				seen := map[*ssa.BasicBlock]bool{}
+				var walk func(x *ssa.BasicBlock)
+				walk = func(x *ssa.BasicBlock) {
+					if seen[x] || l.body[x] || bad != "" {
+						return
+					}
+					seen[x] = true
+					if ret, ok := x.Instrs[len(x.Instrs)-1].(*ssa.Return); ok {
+						if isSuccessReturn(ret) {
+							bad = c.W.Pos(ret.Pos())
+						}
+						return
+					}
+					for _, y := range x.Succs {
+						walk(y)
+					}
+				}
+				walk(sb)
+			}
+		}
+		if bad != "" {
+			o.Verdict, o.Reason = Finding, "the loop over the items can be left from inside its body towards the successful return at " + bad + ": the items after the current one are neither judged nor kept"
+		} else {
+			o.Verdict, o.Reason = Discharged, "the loop over the items is left only by its bound test or by error returns"
+		}
+		r.Add(o)
+	}
+	return n
+}
+
+// ---------------------------------------------------------------------------------------
+// HOFARGS (C15): the callback of $map/$filter/$reduce/$single gets (value, index, whole array)
+// with the whole array being the array the value was taken from.
+//
+// An argument list literal []reflect.Value{…, X.Index(i), reflect.ValueOf(i), A, …} is found by
+// its shape (an element read by index out of X, followed by the boxed index); the element after
+// them must be X itself. With the unwrapped argument in that place a scalar in array position is
+// handed to a three-parameter callback as a scalar, not as the one-member array it counts as.
+// ---------------------------------------------------------------------------------------
+
+func runHOFARGS(c *Ctx, r *Result, rule string, fns []*ssa.Function) int {
+	n := 0
+	for _, f := range fns {
+		ord := 0
+		for _, ins := range instrsIn(f) {
+			al, ok := ins.(*ssa.Alloc)
+			if !ok {
+				continue
+			}
+			at, ok := deref(al.Type()).Underlying().(*types.Array)
+			if !ok || !isReflectValue(at.Elem()) || at.Len() < 3 {
+				continue
+			}
+			elems := map[int64]ssa.Value{}
+			for _, rf := range *al.Referrers() {
+				ia, ok := rf.(*ssa.IndexAddr)
+				if !ok {
+					continue
+				}
+				k, isK := intConstOf(ia.Index)
+				if !isK {
+					continue
+				}
+				for _, rf2 := range *ia.Referrers() {
+					if st, ok := rf2.(*ssa.Store); ok && st.Addr == ssa.Value(ia) {
+						elems[k] = st.Val
+					}
+				}
+			}
+			for k := int64(0); k+2 < at.Len(); k++ {
+				item, isCall := elems[k].(*ssa.Call)
+				if !isCall || staticName(item) != "reflect.Value.Index" || len(item.Call.Args) != 2 {
+					continue
+				}
+				idx, isVO := elems[k+1].(*ssa.Call)
+				if !isVO || staticName(idx) != "reflect.ValueOf" {
+					continue
+				}
+				X := item.Call.Args[0]
+				A := elems[k+2]
+				ord++
+				n++
+				o := Obligation{Rule: rule, Key: fmt.Sprintf("%s:callback-args#%d", shortFn(f), ord), Fn: shortFn(f), Pos: c.W.Pos(al.Pos()), Nontrivial: true}
+				if A == X || (bndCtx != nil && A != nil && bndCtx.canon(A) == bndCtx.canon(X)) {
+					o.Verdict, o.Reason = Discharged, "the third callback argument is the array the member was read from"
+				} else {
+					o.Verdict, o.Reason = Finding, "the callback's whole-array argument is " + describeVal(A) + " while the member is read from " + describeVal(X) + ": for an argument that is not an array the callback sees the bare value instead of the one-member array it stands for"
+				}
+				r.Add(o)
+			}
+		}
+	}
+	return n
+}
+
+// ---------------------------------------------------------------------------------------
+// REFLTYPE (C09): reflect.AppendSlice joins two slices of the same type.
+//
+// reflect.AppendSlice(s, t) panics unless s and t have the same slice type. Rule: both operands
+// are rooted in reflect.MakeSlice of the same package-level type value — through Append and
+// AppendSlice (their first operand), phis, and calls of module functions whose every return is
+// rooted the same way (a function that is being judged counts as rooted: the recursive flattener
+// returns what it built). A fast path that hands back its argument "because there is nothing to
+// flatten" returns a slice of whatever type the argument has.
+// ---------------------------------------------------------------------------------------
+
+func runREFLTYPE(c *Ctx, r *Result, rule string, fns []*ssa.Function) int {
+	onPath := map[ssa.Value]bool{}
+	var root func(v ssa.Value, busy map[*ssa.Function]bool, depth int) string
+	root = func(v ssa.Value, busy map[*ssa.Function]bool, depth int) string {
+		if depth > 40 {
+			return ""
+		}
+		switch x := v.(type) {
+		case *ssa.Phi:
+			if onPath[v] {
+				return "*" // a cycle through phis: judged by the other edges
+			}
+			onPath[v] = true
+			defer delete(onPath, v)
+			res := ""
+			for _, e := range x.Edges {
+				if e == v {
+					continue
+				}
+				t := root(e, busy, depth+1)
+				if t == "*" {
+					continue
+				}
+				if t == "" || (res != "" && res != t) {
+					return ""
+				}
+				res = t
+			}
+			if res == "" {
+				return "*"
+			}
+			return res
+		case *ssa.Call:
+			g := x.Call.StaticCallee()
+			if g == nil {
+				return ""
+			}
+			switch g.String() {
+			case "reflect.MakeSlice":
+				if ld, ok := x.Call.Args[0].(*ssa.UnOp); ok && ld.Op == token.MUL {
+					if gl, ok := ld.X.(*ssa.Global); ok {
+						return gl.String()
+					}
+				}
+				return ""
+			case "reflect.Append", "reflect.AppendSlice":
+				return root(x.Call.Args[0], busy, depth+1)
+			}
+			if len(g.Blocks) == 0 || !c.G.InSc[g] {
+				return ""
+			}
+			if busy[g] {
+				return "*" // coinductive: judged by the other returns
+			}
+			busy[g] = true
+			defer delete(busy, g)
+			res := ""
+			for _, b := range g.Blocks {
+				ret, ok := b.Instrs[len(b.Instrs)-1].(*ssa.Return)
+				if !ok || len(ret.Results) == 0 {
+					continue
+				}
+				t := root(ret.Results[0], busy, depth+1)
+				if t == "*" {
+					continue
+				}
+				if t == "" || (res != "" && res != t) {
+					return ""
+				}
+				res = t
+			}
+			if res == "" {
+				return "*"
+			}
+			return res
+		}
+		return ""
+	}
+	n := 0
+	for _, f := range fns {
+		ord := 0
+		for _, ci := range callsIn(f) {
+			g := ci.Common().StaticCallee()
+			if g == nil || g.String() != "reflect.AppendSlice" {
+				continue
+			}
+			ord++
+			n++
+			o := Obligation{Rule: rule, Key: fmt.Sprintf("%s:AppendSlice#%d", shortFn(f), ord), Fn: shortFn(f), Pos: c.W.Pos(ci.Pos()), Nontrivial: true}
+			a := root(ci.Common().Args[0], map[*ssa.Function]bool{}, 0)
+			b := root(ci.Common().Args[1], map[*ssa.Function]bool{}, 0)
+			if a != "" && a != "*" && (b == a || b == "*") {
+				o.Verdict, o.Reason = Discharged, "both operands are slices made with reflect.MakeSlice(" + a + ", …)"
+			} else {
+				o.Verdict, o.Reason = Finding, "reflect.AppendSlice panics when its operands have different slice types, and the second operand (" + describeVal(ci.Common().Args[1]) + ") is not, on every path, a slice made with the same type as the first: a typed slice such as the []string of $split or $keys reaches it"
+			}
+			r.Add(o)
+		}
+	}
+	return n
+}
+
+// ---------------------------------------------------------------------------------------
+// DEDUP (C14, C15): a value admitted because it was not in the "seen" set is put into the set.
+//
+// Test-and-set pairing: where a branch is taken because a lookup M[k] in a set-like map
+// (map[K]bool / map[K]struct{}) said "absent", and the code under that branch appends k to a
+// result list, the same region must also store k into M. Otherwise a later occurrence of the
+// same k is admitted again: "each distinct name exactly once" fails for names first met late.
+// ---------------------------------------------------------------------------------------
+
+func runDEDUP(c *Ctx, r *Result, rule string, fns []*ssa.Function) int {
+	n := 0
+	for _, f := range fns {
+		ord := 0
+		for _, b := range f.Blocks {
+			iff, ok := b.Instrs[len(b.Instrs)-1].(*ssa.If)
+			if !ok {
+				continue
+			}
+			cond := iff.Cond
+			neg := false
+			for i := 0; i < 3; i++ {
+				if u, isU := cond.(*ssa.UnOp); isU && u.Op == token.NOT {
+					cond, neg = u.X, !neg
+				}
+			}
+			var look *ssa.Lookup
+			switch x := cond.(type) {
+			case *ssa.Lookup:
+				if !x.CommaOk {
+					look = x
+				}
+			case *ssa.Extract:
+				if lk, isLk := x.Tuple.(*ssa.Lookup); isLk && lk.CommaOk && x.Index == 1 {
+					look = lk
+				}
+			}
+			if look == nil {
+				continue
+			}
+			mt, isMap := look.X.Type().Underlying().(*types.Map)
+			if !isMap {
+				continue
+			}
+			switch e := mt.Elem().Underlying().(type) {
+			case *types.Basic:
+				if e.Kind() != types.Bool {
+					continue
+				}
+			case *types.Struct:
+				if e.NumFields() != 0 {
+					continue
+				}
+			default:
+				continue
+			}
+			// the successor taken when the key is absent
+			absent := b.Succs[1]
+			if neg {
+				absent = b.Succs[0]
+			}
+			if len(absent.Preds) != 1 {
+				continue
+			}
+			appends, stores := false, false
+			for _, rb := range f.Blocks {
+				if rb != absent && !absent.Dominates(rb) {
+					continue
+				}
+				for _, ins := range rb.Instrs {
+					switch x := ins.(type) {
+					case *ssa.MapUpdate:
+						if x.Map == look.X && sameKeyValue(c, x.Key, look.Index) {
+							stores = true
+						}
+					case *ssa.Call:
+						if bi, isB := x.Call.Value.(*ssa.Builtin); isB && bi.Name() == "append" {
+							for _, el := range variadicElems(x.Call.Args[1]) {
+								if el == look.Index || sameKeyValue(c, el, look.Index) {
+									appends = true
+								}
+							}
+						}
+					}
+				}
+			}
+			if !appends {
+				continue
+			}
+			ord++
+			n++
+			o := Obligation{Rule: rule, Key: fmt.Sprintf("%s:test-and-set#%d", shortFn(f), ord), Fn: shortFn(f), Pos: c.W.Pos(look.Pos()), Nontrivial: true}
+			if stores {
+				o.Verdict, o.Reason = Discharged, "the value appended because it was absent from the set is stored into the set under the same branch"
+			} else {
+				o.Verdict, o.Reason = Finding, "a value is appended to the result because the set lookup said it was absent, but it is not put into the set: a later occurrence of the same value is appended again"
+			}
+			r.Add(o)
+		}
+	}
+	return n
+}
